@@ -486,9 +486,12 @@ fn build(plan: &WirePlan, w: &World, op: &WireOp, cur_allow: &Option<HashSet<Uui
                 2 => o[15] ^= 0x01,
                 _ => o.reverse(),
             }
-            let rid = Uuid::from_bytes(o);
-            if rid == cid {
-                o[0] ^= 0x80;
+            // the derived id must be nobody this world knows: with few clients whose ids share a long
+            // prefix (digit-only mode) a one-bit near miss of one client IS another client
+            let mut k = 0usize;
+            while Uuid::from_bytes(o) == cid || w.clients.contains(&Uuid::from_bytes(o)) || cur_allow.as_ref().map(|a| a.contains(&Uuid::from_bytes(o))).unwrap_or(false) {
+                o[k % 16] ^= 0x80 >> (k / 16 % 8);
+                k += 1;
             }
             effective = Some(Uuid::from_bytes(o));
             headers.push((h, Uuid::from_bytes(o).to_string().into_bytes()))
